@@ -70,6 +70,11 @@ def _add_cancel(r, op):
 
 
 def gen_send_op(r, driver, cats=None, p_error=0.15, allow_cancel=False, p_unsupported=0.0):
+    if p_unsupported and driver in ("luba", "sci") and r.random() < p_unsupported:
+        # the serial gateways: no retry option, the refusal is a ValueError of the protocol layer
+        bits = r.choice([8, 25, 32, 17] if driver == "luba" else [25, 32, 17, 1])
+        return {"kind": "send", "cmd": [bits, r.getrandbits(bits), 0], "outs": {}, "unsupported": True,
+                "gap_us": r.choice([0, 0, 50, 1000])}
     if p_unsupported and driver in ("tridonic", "hasseb") and r.random() < p_unsupported:
         # a frame length the gateway cannot carry, with every form of the exceptions option:
         # it has to be refused at once, whatever the retry policy
